@@ -270,4 +270,25 @@ theorem C01_base (P : Params) (hP : 0 < P.nl) (A : Alg D) (hA : AlgOk A) (g : Ci
     rw [h3, target_closed A hA b hlt]
   | false => simpa using h3
 
+/-- **C06 for the base family**: every submit hands the submitted context straight back (the family is
+    synchronous: nothing is ever held), it is not marked PROCESSING and sits in no lane; flush has
+    nothing to return (`_ctx_mgr_flush_base` returns NULL). -/
+theorem C06_base (P : Params) (hP : 0 < P.nl) (A : Alg D) (hA : AlgOk A) (g : Cid → D)
+    (ops : List (Cid × Bytes × Nat)) (hb : BoundedRun A (world0 P g) ops) (c : Cid) (data : Bytes) (flags : Nat) :
+    (baseSubmit A (baseRun A (world0 P g) ops).m c data flags).2 = some c ∧
+    (∀ j, ((baseRun A (world0 P g) ops).m.ctxs j).processing = false ∧ ((baseRun A (world0 P g) ops).m.ctxs j).lane = none) ∧
+    occupied (baseRun A (world0 P g) ops).m = [] := by
+  have hB : 0 < A.B := by rcases hA with ⟨h, _⟩ | ⟨h, _⟩ <;> omega
+  have hi0 : AllIdle (world0 P g) := by intro j; simp [world0, mgrInit]
+  obtain ⟨hg, hi⟩ := baseRun_good A hA ops _ (world0_good P hP A hB g) hi0 hb
+  refine ⟨?_, fun j => ⟨(hi j).2, (hi j).1⟩, ?_⟩
+  · unfold baseSubmit; simp only []; split
+    · rfl
+    · split
+      · rfl
+      · split <;> rfl
+  · rw [occupied_eq_nil]
+    intro j hj
+    exact (hg.inv.ok.coh j hj).1 (hi j).1
+
 end IsalVerif.HashMB
